@@ -22,7 +22,7 @@ func (r Return) ValueTypes() []ValueType {
 			for expr.StatementType() == STATEMENT_TYPE_GROUP {
 				expr = expr.(Group).Child()
 			}
-			return expr.(FunctionCall).ReturnTypes()
+			return expr.(Call).ReturnTypes()
 		}
 	}
 	valueTypes := []ValueType{}
